@@ -184,6 +184,9 @@ pub enum Op {
     RtJson,
     RtTok { human: bool },
     ResSet(u8),
+    /// several operations through ONE `Entry` handle (the handle caches the entity's location):
+    /// 0 add B, add A, query; 1 add Z, remove A, add O, query; 2 remove B, add B, query; 3 add O, add Z, remove O, query
+    EntryChain(Tgt, u8),
     /// create a lock-step twin of the world: 0 JSON round trip, 1 compact tokens, 2 human-readable tokens,
     /// 3 `clone()`; every later operation is applied to both and the two must stay identical
     Twin(u8),
@@ -201,6 +204,7 @@ impl Op {
             Op::RemoveComp(..) => "entry_remove",
             Op::MutQ(_) => "mut_query",
             Op::MutEntry(_) => "mut_entry",
+            Op::EntryChain(..) => "entry_chain",
             Op::Reserve { .. } => "reserve",
             Op::Shrink => "shrink_to_fit",
             Op::CloneSelf => "clone",
@@ -633,6 +637,48 @@ impl Exec {
                             chk.fail(Prop::C01, "entry-query-none-with-component", format!("{:?} has B", id));
                         }
                     }
+                }
+            }
+            Op::EntryChain(t, v) => {
+                let Some(id) = self.target(t) else { return Step::Disabled };
+                let Some(mut e) = self.w.entry(mkid(id)) else {
+                    chk.fail(Prop::C02, "entry-none-for-live", format!("entry({:?}) is None for a live identifier", id));
+                    return Step::Done;
+                };
+                let row = self.m.ents.get_mut(&id).unwrap();
+                match v {
+                    0 => {
+                        e.add(mk::<B>(row));
+                        e.add(mk::<A>(row));
+                    }
+                    1 => {
+                        e.add(mk::<Z>(row));
+                        e.remove::<A, _>();
+                        row[0] = None;
+                        e.add(mk::<O>(row));
+                    }
+                    2 => {
+                        e.remove::<B, _>();
+                        row[3] = None;
+                        e.add(mk::<B>(row));
+                    }
+                    _ => {
+                        e.add(mk::<O>(row));
+                        e.add(mk::<Z>(row));
+                        e.remove::<O, _>();
+                        row[2] = None;
+                    }
+                }
+                // the same handle must still denote the same entity
+                match e.query(Query::<Views!(entity::Identifier, Option<&A>, Option<&Z>, Option<&O>, Option<&B>)>::new()) {
+                    Some(result!(qid, a, z, o, b)) => {
+                        let got = [a.map(|c| c.read().0), z.map(|c| c.read().0), o.map(|c| c.read().0), b.map(|c| c.read().0)];
+                        if idp(qid) != id || &got != row {
+                            chk.fail(Prop::C01, "entry-handle-denotes-other-entity op=entry_chain", format!("handle for {:?} reads {:?} = {:?}, model {:?}", id, idp(qid), got, row));
+                            chk.fail(Prop::C02, "entry-handle-denotes-other-entity op=entry_chain", format!("handle for {:?} reads {:?}", id, idp(qid)));
+                        }
+                    }
+                    None => chk.fail(Prop::C01, "entry-handle-query-none op=entry_chain", format!("{:?}", id)),
                 }
             }
             Op::Reserve { mask, n } => {
@@ -1177,7 +1223,7 @@ pub fn alphabet(name: &str) -> Vec<Op> {
                     v.push(RemoveComp(t, c));
                 }
             }
-            v.extend([Remove(Lo), MutQ(3), Shrink]);
+            v.extend([Remove(Lo), MutQ(3), Shrink, EntryChain(Lo, 0), EntryChain(Lo, 1), EntryChain(Mid, 3)]);
             v
         }
         "copy" => vec![
@@ -1223,6 +1269,7 @@ pub fn alphabet(name: &str) -> Vec<Op> {
                 v.push(RemoveComp(Lo, c));
             }
             v.extend([Add(Mid, 0), RemoveComp(Mid, 3), MutQ(0), MutQ(1), MutQ(2), MutQ(3), MutEntry(Lo), MutEntry(Mid)]);
+            v.extend([EntryChain(Lo, 0), EntryChain(Lo, 1), EntryChain(Lo, 2), EntryChain(Mid, 3)]);
             v.extend([Reserve { mask: 5, n: 2 }, Reserve { mask: 15, n: 2 }, Shrink]);
             v.extend([CloneSelf, Snapshot, CloneFromAux, CloneFromEmpty, SwapAux, RtJson, RtTok { human: false }, RtTok { human: true }]);
             v.extend([ResSet(0), ResSet(1), ResSet(2)]);
